@@ -1525,3 +1525,75 @@ func (p *relProver) proveSearchIndex(in ssa.Instruction, x, idx ssa.Value) (stri
 	}
 	return "D13 search contract: the index is the non-negative result of slices.Index/IndexFunc over the same slice", true
 }
+
+// D14 — comparator contract of package sort: sort.Slice(s, less) / sort.SliceStable call less(i, j) only with
+// 0 <= i, j < len(s). Inside the closure passed as less, s2[p] with p one of the closure's two parameters and s2 the
+// captured variable that the sort call's first argument was loaded from (a cell with a single store) is in range.
+func (p *relProver) proveSortLess(in ssa.Instruction, x, idx ssa.Value) (string, bool) {
+	g := in.Parent()
+	prm, ok := idx.(*ssa.Parameter)
+	if !ok || g.Parent() == nil || prm.Parent() != g || len(g.Params) != 2 {
+		return "", false
+	}
+	ld, ok := x.(*ssa.UnOp)
+	if !ok || ld.Op != token.MUL {
+		return "", false
+	}
+	fv, ok := ld.X.(*ssa.FreeVar)
+	if !ok {
+		return "", false
+	}
+	// the captured cell is not written inside the closure
+	for _, ref := range *fv.Referrers() {
+		if st, isSt := ref.(*ssa.Store); isSt && st.Addr == ssa.Value(fv) {
+			return "", false
+		}
+	}
+	fvIdx := -1
+	for i, f := range g.FreeVars {
+		if f == fv {
+			fvIdx = i
+		}
+	}
+	var mk *ssa.MakeClosure
+	n := 0
+	allInstrs(g.Parent(), func(i2 ssa.Instruction) {
+		if m, ok := i2.(*ssa.MakeClosure); ok && m.Fn == ssa.Value(g) {
+			mk = m
+			n++
+		}
+	})
+	if n != 1 || fvIdx < 0 {
+		return "", false
+	}
+	cell, ok := mk.Bindings[fvIdx].(*ssa.Alloc)
+	if !ok {
+		return "", false
+	}
+	stores := 0
+	for _, ref := range *cell.Referrers() {
+		if st, isSt := ref.(*ssa.Store); isSt && st.Addr == ssa.Value(cell) {
+			stores++
+		}
+	}
+	if stores != 1 {
+		return "", false
+	}
+	for _, ref := range *mk.Referrers() {
+		cl, ok := ref.(*ssa.Call)
+		if !ok || cl.Call.StaticCallee() == nil || len(cl.Call.Args) != 2 || cl.Call.Args[1] != ssa.Value(mk) {
+			continue
+		}
+		if k := funcKey(cl.Call.StaticCallee()); k != "sort.Slice" && k != "sort.SliceStable" {
+			continue
+		}
+		s := cl.Call.Args[0]
+		if mi, ok := s.(*ssa.MakeInterface); ok {
+			s = mi.X
+		}
+		if sl, ok := s.(*ssa.UnOp); ok && sl.Op == token.MUL && sl.X == ssa.Value(cell) {
+			return "D14 sort contract: less(i, j) is called with 0 <= i, j < len(s) for the slice handed to sort.Slice, which is the captured one", true
+		}
+	}
+	return "", false
+}
